@@ -229,8 +229,12 @@ func checkProperty(prog *Program, prop, tier string, seed, timeoutS int, loadS f
 		lemmaNames = append(lemmaNames, o.Name)
 	}
 	ev := evidence{PropertyID: prop, Tier: tier, Seed: seed, Level: "proof", Assumptions: as, WallS: round3(time.Since(start).Seconds() + loadS), Violations: len(unknownViols)}
+	// obligations listed as known findings are reported, not claimed: they are neither counted as proof
+	// obligations of this run nor as discharged
+	claimed := nObl - len(knownSeen)
 	ev.Coverage = map[string]any{
-		"obligations":              nObl,
+		"obligations":              claimed,
+		"obligations_generated":    nObl,
 		"discharged":               nDis,
 		"checker_cmd":              fmt.Sprintf("/verif/bin/gbv check %s --tier %s", prop, tier),
 		"trusted_base":             tb,
@@ -246,7 +250,7 @@ func checkProperty(prog *Program, prop, tier string, seed, timeoutS int, loadS f
 		"unreachable_returns":      deadReturns,
 		"per_query_timeout_s":      timeoutS,
 	}
-	if nObl == 0 {
+	if claimed <= 0 {
 		ev.Coverage["obligations"] = 0
 	}
 	data, _ := json.MarshalIndent(ev, "", " ")
